@@ -1279,14 +1279,23 @@ impl TensorStore {
                     } => {
                         // Load directly as sparse vector
                         let pos_ids = tensor_compress::decompress_ids(&positions);
-                        #[allow(clippy::cast_possible_truncation)]
-                        // Sparse vector positions fit in u32
-                        let positions_u32: Vec<u32> = pos_ids.iter().map(|&p| p as u32).collect();
-                        TensorValue::Sparse(SparseVector::from_parts(
-                            dimension,
-                            positions_u32,
-                            values,
-                        ))
+                        // The file may be damaged: report it instead of panicking.
+                        if pos_ids.len() != values.len() {
+                            return Err(SnapshotError::SerializationError(format!(
+                                "sparse vector with {} positions and {} values",
+                                pos_ids.len(),
+                                values.len()
+                            )));
+                        }
+                        let positions_u32 = pos_ids
+                            .iter()
+                            .map(|&p| u32::try_from(p))
+                            .collect::<std::result::Result<Vec<u32>, _>>()
+                            .map_err(|e| SnapshotError::SerializationError(e.to_string()))?;
+                        TensorValue::Sparse(
+                            SparseVector::try_from_parts(dimension, positions_u32, values)
+                                .map_err(|e| SnapshotError::SerializationError(e.to_string()))?,
+                        )
                     },
                     CompressedValue::VectorTT { .. } | CompressedValue::IdList(_) => {
                         let v = decompress_vector(&value)
